@@ -14,11 +14,13 @@ import (
 	"os"
 	"path/filepath"
 	"regexp"
+	"runtime"
 	"strconv"
 	"strings"
 	"sync"
 	"sync/atomic"
 	"syscall"
+	"time"
 
 	xctx "github.com/ossrs/go-oryx-lib/https/net/context"
 	"verifharness/rp"
@@ -91,10 +93,6 @@ func parPhase(w *world, tc *caseT) *mismatch {
 			rp.Bug("par step %d refers to a context made in the par phase", i)
 		}
 	}
-	// what the observers may see of the old contexts
-	type seen struct {
-		first atomic.Value // the first non-nil Err seen, as string
-	}
 	before := make([]string, n0)
 	for x := 0; x < n0; x++ {
 		before[x] = errName(w.ctxs[x].Err())
@@ -136,6 +134,7 @@ func parPhase(w *world, tc *caseT) *mismatch {
 				case <-stop:
 					return
 				default:
+					runtime.Gosched() // many phases run side by side: do not keep a P from the goroutines under observation
 				}
 			}
 		}(g)
@@ -165,13 +164,16 @@ func parPhase(w *world, tc *caseT) *mismatch {
 		}(i)
 	}
 	close(start)
-	wg.Wait()
+	finished := waitFor(&wg)
 	close(stop)
-	obsWg.Wait()
+	finished = finished && waitFor(&obsWg)
 	select {
 	case e := <-panics:
 		panic(e) // a panic in the library (close of closed channel ...) is the case's verdict
 	default:
+	}
+	if !finished {
+		return &mismatch{what: fmt.Sprintf("concurrent phase (%s): a call into the package did not return within %v (deadlock)", parDesc(par), stallBound)}
 	}
 	// the contexts made in the phase take the ids the specification gave them
 	for i := range par {
@@ -196,6 +198,20 @@ func parPhase(w *world, tc *caseT) *mismatch {
 	}
 	// the registries of the hand written tree: only compared above when the variant exposes them
 	return nil
+}
+
+const stallBound = 60 * time.Second
+
+// waitFor waits for the goroutines of the phase; false: they are stuck (and leak: the verdict is out anyway).
+func waitFor(wg *sync.WaitGroup) bool {
+	ch := make(chan struct{})
+	go func() { wg.Wait(); close(ch) }()
+	select {
+	case <-ch:
+		return true
+	case <-time.After(stallBound):
+		return false
+	}
 }
 
 func parDesc(par []stepT) string {
@@ -224,6 +240,11 @@ func runConc(i int, raw json.RawMessage, rounds int) rp.Result {
 		}
 	}
 	return rp.Result{OK: true, Nontriv: true}
+}
+
+func raceResult(i int, lib []string) rp.Result {
+	return rp.Result{I: i, OK: false, Nontriv: true, Deviation: "X02/data-race", Observed: lib[0],
+		What: fmt.Sprintf("race detector: %d DATA RACE report(s) involving the context package during the concurrent phase; first: %s", len(lib), raceSummary(lib[0]))}
 }
 
 func concBatch(stage string) rp.Batch {
@@ -261,19 +282,59 @@ func concBatch(stage string) rp.Batch {
 		}
 		rr := &raceReader{path: raceLogPath() + "." + strconv.Itoa(os.Getpid())}
 		res := make([]rp.Result, len(cases))
+		// first pass: the cases on a pool (prefixes with ticks sleep); the race log tells whether anything raced
+		var wg sync.WaitGroup
+		next := make(chan int)
+		for g := 0; g < 12; g++ {
+			wg.Add(1)
+			go func() {
+				defer wg.Done()
+				for i := range next {
+					i := i
+					res[i] = guarded(i, func() rp.Result { return runConc(i, cases[i], rounds) })
+				}
+			}()
+		}
+		for i := range cases {
+			next <- i
+		}
+		close(next)
+		wg.Wait()
+		lib, other := rr.next()
+		if len(other) > 0 {
+			rp.Bug("race report that does not involve the context package (harness bug?):\n%s", other[0])
+		}
+		if len(lib) == 0 {
+			return res
+		}
+		// second pass, only after a report: one case at a time, so that a report belongs to the case that ran
+		attributed := false
 		for i, raw := range cases {
 			i, raw := i, raw
-			res[i] = guarded(i, func() rp.Result { return runConc(i, raw, rounds) })
-			lib, other := rr.next()
+			r := guarded(i, func() rp.Result { return runConc(i, raw, rounds) })
+			lib2, other := rr.next()
 			if len(other) > 0 {
 				rp.Bug("race report that does not involve the context package (harness bug?):\n%s", other[0])
 			}
-			if len(lib) > 0 && res[i].OK {
-				res[i].OK = false
-				res[i].Deviation = "X02/data-race"
-				res[i].What = fmt.Sprintf("race detector: %d DATA RACE report(s) involving the context package during the concurrent phase; first: %s",
-					len(lib), raceSummary(lib[0]))
-				res[i].Observed = lib[0]
+			if !r.OK && res[i].OK {
+				res[i] = r
+			}
+			if len(lib2) > 0 {
+				attributed = true
+				if res[i].OK {
+					res[i] = raceResult(i, lib2)
+				}
+			}
+		}
+		if !attributed {
+			// the detector reports each racing pair of source locations once per process: name the case set instead
+			k := 0
+			for k < len(res)-1 && !res[k].OK {
+				k++
+			}
+			if res[k].OK {
+				res[k] = raceResult(k, lib)
+				res[k].What += " (reported while the cases of the batch ran side by side; this case stands for the batch)"
 			}
 		}
 		return res
